@@ -13,6 +13,11 @@ pub fn run(ctx: &Ctx) -> Report {
 	// (alphabet level, max segments)
 	let plans: Vec<(u8, usize)> = if ctx.quick() { vec![(0, 6), (1, 4)] } else { vec![(0, 8), (1, 5), (2, 4)] };
 	for f in Family::BOTH {
+		let mut vs = Vec::new();
+		total.evaluations += by_family!(f, c12_constants(&mut vs));
+		for v in vs {
+			total.violate(v);
+		}
 		let d = refs.dfa(f, Kind::Path);
 		for (level, n) in &plans {
 			let alpha = domains::seg_alphabet(f, *level);
